@@ -100,8 +100,9 @@ def discharge_all(ctx, rid, P, sites, graph, extra=None):
                 ctx.bad(rid, key, s.sp, "panic site no longer guarded: " + why)
             continue
         hit = None
+        own = [cshort(o) for o in q.owners(ctx, s.owner, tuple(P.crates))]      # a helper's sites belong to the functions that call it
         for fre, kind, cre, ore, reason in TABLE:
-            if kind == s.kind and fre.search(cshort(s.owner)) and cre.fullmatch(s.callee) and ore.fullmatch(operand):
+            if kind == s.kind and all(fre.search(o) for o in own) and cre.fullmatch(s.callee) and ore.fullmatch(operand):
                 hit = reason
                 break
         if hit:
